@@ -173,6 +173,8 @@ func asciiTerm(c *ctx) string {
 
 // c08Batch: ASCII terms over {a,b,c} (prefix families, near neighbours), frequency 1 without
 // locations so that merges write single-hit entries next to general ones.
+var c08Batches int
+
 func c08Batch(c *ctx, nd int, id string) zh.Batch {
 	var b zh.Batch
 	common := []string{asciiTerm(c), asciiTerm(c)}
@@ -183,7 +185,8 @@ func c08Batch(c *ctx, nd int, id string) zh.Batch {
 	}
 	// or the segment knows a field (every document carries it, stored) but no document has a term in it
 	freq0Field := ""
-	if c.R.Chance(4) {
+	c08Batches++
+	if c.R.Chance(4) || c08Batches%3 == 0 {
 		freq0Field = []string{"body", "tag"}[c.R.Intn(2)]
 	}
 	tokenless := ""
